@@ -31,6 +31,9 @@ INVALID = "!"
 # (option name, list of values); a value written ("!", v) is deliberately invalid
 STD_OPTIONS = [
     ("flow_proposal_class", [None, "flowproposal", "augmentedflowproposal", "gwflowproposal", "augmentedgwflowproposal", "clusteringflowproposal", "clusteringgwflowproposal", "CLASS", ("!", "nope")]),
+    # plotting is an option like any other: the plotting paths run inside training / population
+    ("plotting", [("plot", True), ("plot", "min"), ("plot", "all"), ("plot", "train")]),
+    ("plotting+class", [("plotcls", "augmentedflowproposal"), ("plotcls", "clusteringflowproposal"), ("plotcls", "gwflowproposal")]),
     ("augment_dims", [("aug", 1), ("aug", 2)]),
     ("generate_augment", [("aug", "gaussian"), ("aug", "zeros")]),
     ("marginalise_augment", [("aug", True)]),
@@ -102,6 +105,7 @@ STD_OPTIONS = [
 ]
 
 INS_OPTIONS = [
+    ("plotting", [("insplot", {}), ("insplot", {"plotting_frequency": 1, "plot_pool": True, "plot_level_cdf": True, "plot_training_data": True, "plot_extra_state": True}), ("insplot", {"plot_trace": False, "plot_likelihood_levels": False})]),
     ("reparameterisation", ["logit", None, ("!", "x")]),
     ("weighted_kl", [True, False]),
     ("reset_flow", [True, False, 2]),
@@ -146,7 +150,7 @@ def build(kind, name, value):
     """Translate one (option, value) into (kwargs, run_kwargs, model, invalid?, label)."""
     kw, rkw, model, invalid = {}, {}, None, False
     tag = None
-    if isinstance(value, tuple) and len(value) == 2 and value[0] in ("!", "aug", "cv0", "noise", "angle", "ramp", "pair", "pair-bad", "redraw", "entropy", "hole", "nimin"):
+    if isinstance(value, tuple) and len(value) == 2 and value[0] in ("!", "plot", "plotcls", "insplot", "aug", "cv0", "noise", "angle", "ramp", "pair", "pair-bad", "redraw", "entropy", "hole", "nimin"):
         tag, value = value
     if tag == "!":
         invalid = True
@@ -155,7 +159,22 @@ def build(kind, name, value):
 
         value = FlowProposal
     label = f"{name}={value!r}"
-    if tag == "aug":
+    if tag == "plot":
+        kw["plot"] = True
+        kw["proposal_plots"] = value
+        rkw["plot"] = True
+    elif tag == "plotcls":
+        kw["plot"] = True
+        kw["proposal_plots"] = True
+        kw["flow_proposal_class"] = value
+        rkw["plot"] = True
+        if "gw" in value:
+            model = "GW5"
+    elif tag == "insplot":
+        kw["plot"] = True
+        kw.update(value)
+        rkw["plot"] = True
+    elif tag == "aug":
         kw["flow_proposal_class"] = "augmentedflowproposal"
         kw[name] = value
     elif tag == "cv0":
@@ -234,7 +253,7 @@ def pairwise_cases(seed):
     """Deviation 2: every pair of valid values of two different options, everything else at its
     default (explicit pairs rather than a covering array, so a failure is attributable to the pair)."""
     out = []
-    skip = ("flow_proposal_class", "augment_dims", "generate_augment", "marginalise_augment", "model", "stopping_pairs", "run.redraw_samples", "run.compute_initial_posterior", "bootstrap", "train_final_flow", "prior_sampling", "n_initial<min_samples")
+    skip = ("plotting", "plotting+class", "flow_proposal_class", "augment_dims", "generate_augment", "marginalise_augment", "model", "stopping_pairs", "run.redraw_samples", "run.compute_initial_posterior", "bootstrap", "train_final_flow", "prior_sampling", "n_initial<min_samples")
     for kind, options in (("std", STD_OPTIONS), ("ins", INS_OPTIONS)):
         vals = []
         for name, values in options:
